@@ -559,7 +559,10 @@ fn round_trip(seed: u64, count: u32, env: &Env) -> (Outcome, RunStats) {
     // typed round trip: the Rust value read back equals the value written (Debug form), which
     // sees differences the JSON comparison cannot (e.g. Some([]) vs None behind a skip rule)
     for (w, r) in all.iter().zip(replayed.iter()) {
-        if format!("{:?}", w.kind) != format!("{:?}", r.kind) {
+        // an optional JSON value that is present and null is indistinguishable from an absent one
+        // after any JSON round trip; the JSON comparison above is the one that judges that case
+        let norm = |s: String| s.replace("Some(Null)", "None");
+        if norm(format!("{:?}", w.kind)) != norm(format!("{:?}", r.kind)) {
             return fail("typed_round_trip", format!("typed_round_trip:{}", ty(w)), format!("frame {}: wrote {} ; read {}", w.id, brief(&format!("{:?}", w.kind)), brief(&format!("{:?}", r.kind))), stats);
         }
     }
